@@ -295,7 +295,7 @@ def main():
             continue
         violations.append((o, rp, found))
     for nb, v in native_viol:
-        hit = [k for k in kf if k.get("native") == nb["name"] and k.get("witness_key") == v.get("key")]
+        hit = [k for k in kf if k.get("clause") == v.get("clause")]
         if hit:
             known_hits.append((hit[0], v))
             continue
@@ -349,8 +349,11 @@ def main():
     # report ------------------------------------------------------------------------------------
     print("%s %s: %d obligations, %d discharged, %d failed, %d undecided; %d mutants run (%d missed); wall %.1fs" %
           (pid, tier, tot, dis, len(failed), len(undecided), len(mres), len(missed), wall))
+    seen_kf = set()
     for k, o in known_hits:
-        print("KNOWN-FINDING: property=%s %s" % (pid, k["what"]))
+        if k["what"] not in seen_kf:
+            seen_kf.add(k["what"])
+            print("KNOWN-FINDING: property=%s %s" % (pid, k["what"]))
     if errors:
         for n, e in errors:
             print("CHECKER-ERROR %s: %s" % (n, e))
